@@ -30,7 +30,7 @@ Fresh == [run |-> 0, mode |-> "none", cthr |-> 0, hasprog |-> FALSE, p |-> NoRun
           live |-> 0, tids |-> << >>, wc |-> << >>, runno |-> 0, rb |-> NoRun,
           owner |-> << >>, nxa |-> 0, nxn |-> 0, nxend |-> FALSE, nxnext |-> 0, nxc |-> 0,
           matchRoots |-> {}, matched |-> {}, finderEnd |-> FALSE, after |-> << >>,
-          crashed |-> FALSE, bound |-> 0, trunc |-> FALSE, big |-> FALSE, dig |-> [n |-> 0, hs |-> 0, hu |-> 0, sum |-> 0, mink |-> -1], nviol |-> 0, nruns |-> 0, nchecked |-> 0]
+          crashed |-> FALSE, bound |-> 0, trunc |-> FALSE, tepanic |-> FALSE, big |-> FALSE, dig |-> [n |-> 0, hs |-> 0, hu |-> 0, sum |-> 0, mink |-> -1], nviol |-> 0, nruns |-> 0, nchecked |-> 0]
 
 Get(f, x, d) == IF x \in DOMAIN f THEN f[x] ELSE d
 Put(f, x, v) == IF x \in DOMAIN f THEN [f EXCEPT ![x] = v] ELSE f @@ (x :> v)
@@ -122,7 +122,7 @@ After(a, ev) ==
                         !.nxnext = IF ev.pos >= 0 THEN ev.pos + 1 ELSE @,
                         !.eagerSeen = (a.phase = "build") \/ @,
                         !.eagerAny = (a.phase = "build") \/ @]
-    [] ev.e = "te" -> [a EXCEPT !.phase = "done", !.nchecked = @ + 1]
+    [] ev.e = "te" -> [a EXCEPT !.phase = "done", !.nchecked = @ + 1, !.tepanic = (ev.kind = "panic")]
     [] ev.e = "abandon" -> [a EXCEPT !.lin = FALSE]
     [] ev.e = "trunc" -> [a EXCEPT !.trunc = TRUE]      \* the recorder stopped recording calls
     [] OTHER -> a
@@ -282,7 +282,7 @@ C11_ChunkGiven(a, ev, b) ==
   ev.e = "wbegin" /\ a.params.ck = "exact" => ev.c = a.params.csv
 C11_AlignedBlockOneThread(a, ev, b) ==
   ev.e = "call" /\ ev.a > 0 /\ a.runno = 1 /\ a.params.ck = "exact" /\ a.params.csv > 0
-     /\ ev.s = FirstStage(a.p) /\ ev.s # KeyStage =>
+     /\ ev.s = FirstStage(a.p) /\ ev.s # KeyStage /\ Adv(a.p) = 0 =>
      b.owner[ev.k \div a.params.csv] = ev.a
 \* a burst of next() calls of one worker on a by-value iterator: c elements, fewer only at the end
 BurstOK(a) == a.nxn = 0 \/ a.nxend \/ a.nxc = 0
@@ -298,7 +298,7 @@ C12_ParamsPropagate(a, ev, b) ==
                   /\ (ev.seq = 1) = IsSequential(a.params)
 
 C13_NoLeakNoDouble(a, ev, b) ==
-  ev.e = "tok" /\ a.p.cs < 0 /\ a.phase = "done" => ev.live = 0 /\ ev.double = 0 /\ ev.bad = 0
+  ev.e = "tok" /\ a.p.cs < 0 /\ a.phase = "done" /\ ~a.tepanic => ev.live = 0 /\ ev.double = 0 /\ ev.bad = 0
 
 C14_PanicPropagates(a, ev, b) == IsTe(ev) /\ a.crashed => ev.kind = "panic"
 C14_NoBadDrop(a, ev, b) == ev.e = "tok" /\ a.p.cs >= 0 => ev.double = 0 /\ ev.bad = 0
